@@ -54,6 +54,31 @@ Section Abstract.
                   (combine (seq 0 (length deps)) deps))).
   Proof. intros slicers rows i tm c deps mw prev ivs refs bs H. cbn [JointFit.fit_dim]. rewrite H. reflexivity. Qed.
 
+  (* the lists of a conditional dimension run parallel: one reference, one pair of boundaries, one estimate per
+     stored interval in the same order (also after min_n_points dropped intervals); estimate k is the fit of a
+     fresh template copy to interval k; dependence function j gets (all references, parameter j's estimates);
+     parameters without a dependence function (fixed ones) get no dependence fit -- for ANY slicer *)
+  Theorem C09_lists_aligned : forall slicers rows i tm c deps mw prev ivs refs bs pars dps,
+    fit_dim slicers rows i (DC tm c deps) mw prev = Some (FC ivs refs bs pars dps) ->
+    length refs = length ivs /\ length bs = length ivs /\ length pars = length ivs /\ length dps = length deps /\
+    (forall k iv, nth_error ivs k = Some iv -> nth_error pars k = Some (tfit tm None (fst mw) (snd mw) iv)) /\
+    (forall j dep, nth_error deps j = Some dep ->
+                   nth_error dps j = Some (dfit dep (prevD T R P DP prev j) refs (map (proj dep) pars))).
+  Proof. exact (cond_lists_aligned T R d0 M W Tm P tfit Dep DP Y proj dfit). Qed.
+
+  (* an unconditional dimension is fitted in place (start = its previous estimate) to its whole column, with its own options *)
+  Theorem C09_unconditional_fit : forall slicers rows i tm mw prev,
+    fit_dim slicers rows i (DI tm) mw prev = Some (FI (tfit tm (prevP T R P DP prev) (fst mw) (snd mw) (col i rows))).
+  Proof. exact (uncond_fit T R d0 M W Tm P tfit Dep DP Y proj dfit). Qed.
+
+  (* ValueError: a row whose length is not the number of dimensions, a fit-description list of the wrong length,
+     a fit description without "method" *)
+  Theorem C09_invalid_input_raises : forall slicers ds st rows fds,
+    (exists r, In r rows /\ length r <> length ds) \/
+    (exists l, fds = Some l /\ (length l <> length ds \/ exists w, In (Some (mkfd None w)) l)) ->
+    fit slicers ds st rows fds = None.
+  Proof. exact (fit_rejects T R d0 M W mle wnone Tm P tfit Dep DP Y proj dfit). Qed.
+
   (* (a) Width/Number slicer: interval k of the permuted matrix is a permutation of interval k of the
      original, references / boundaries / RuntimeError identical, when the plan (value range -> edge vector,
      references) is the same for both orders *)
@@ -180,6 +205,8 @@ Example C09_nonvacuous :
     = Some [Some (FI 110); Some (FC [[30; 10]; [40; 20]] [1; 5] [(0, 2); (4, 6)] [240; 260] [([1; 5], [247; 267])])] /\
   ex_fit [[1; 10]; [5; 20]; [0; 30]; [4; 40]] (Some [None; Some (mkfd (Some 1) None)])
     = Some [Some (FI 110); Some (FC [[10; 30]; [20; 40]] [1; 5] [(0, 2); (4, 6)] [241; 261] [([1; 5], [248; 268])])] /\
+  ex_fit [[1; 10]; [5; 20; 7]; [0; 30]; [4; 40]] None = None /\
+  ex_fit [[1; 10]; [5; 20]; [0; 30]; [4; 40]] (Some [None; Some (mkfd None (Some 3))]) = None /\
   Permutation [[1; 10]; [5; 20]; [0; 30]; [4; 40]] [[4; 40]; [0; 30]; [5; 20]; [1; 10]] /\
   tfit_inv nat nat nat nat nat ex_tfit.
 Proof.
@@ -195,6 +222,9 @@ Qed.
 
 Print Assumptions C09_interval_data.
 Print Assumptions C09_conditional_fit.
+Print Assumptions C09_lists_aligned.
+Print Assumptions C09_unconditional_fit.
+Print Assumptions C09_invalid_input_raises.
 Print Assumptions C09_intervals_permute.
 Print Assumptions C09_range_order_free.
 Print Assumptions C09_ppi_intervals_permute.
